@@ -391,6 +391,8 @@ func init() {
 				f := float64(p)
 				r = append(r, []float64{f, 0.8, 0.2}, []float64{f, 0.2, 0.8}, []float64{f, 0.5, 0.5})
 			}
+			// levels at and beyond the ends of the indicator's range [0, 1]: the usual way to switch one side off
+			r = append(r, []float64{2, -0.5, 0.8}, []float64{2, 0.2, 1.5}, []float64{3, 0, 1}, []float64{3, -0.5, 1.5})
 			return r
 		},
 		New: func(c []float64) strategy.Strategy {
